@@ -2,6 +2,7 @@ package types
 
 import (
 	"fmt"
+	"math"
 	"math/big"
 	"reflect"
 	"time"
@@ -66,8 +67,10 @@ func numericTypeConverterFunc[T int64 | uint64 | float64](value any) (any, error
 		return numericValue, nil
 
 	case float64:
-		numericValue, a := bigFloat.Float64()
-		if a == big.Above || a == big.Below {
+		// Rounding to the nearest float64 is expected for decimal strings such as "0.1";
+		// only a finite value beyond the float64 range is an error.
+		numericValue, _ := bigFloat.Float64()
+		if math.IsInf(numericValue, 0) && !bigFloat.IsInf() {
 			return nil, fmt.Errorf("number cannot be represented as a float64: %s", bigFloat.String())
 		}
 		return numericValue, nil
